@@ -11,17 +11,26 @@ namespace Iora.ThreadPool
 /-- the codes of `mlog` that mean: `stop()` returned ok (4), `shutdown()` returned (7), the destructor returned (8, 9) -/
 def isReturnCode (c : Nat) : Prop := c = 4 ∨ c = 7 ∨ c = 8 ∨ c = 9
 
+/-- the shutdown number a caller on the "already shut down" path of `shutdown()` waits for -/
+def pollEp : MPc → Option Nat
+  | .sFlagUA e => some e
+  | .sDoneZ e => some e
+  | _ => none
+
 /-- a controller at `pc` is consistent with the flags -/
 structure COk (sh : Shared) (pc : MPc) : Prop where
   own : ownsPc pc = true → sh.shutdown = true
   q : qPc pc = true → sh.quiesced = true
   ctor : ctorPc pc = true → sh.shutdown = false ∧ sh.quiesced = false
+  /-- the number read under `_mutex` with `_shutdown` set is that of a shutdown that has begun -/
+  ep : ∀ e, pollEp pc = some e → 0 < e ∧ sh.shutdown = true
 
 /-- the flags and the log are consistent -/
 structure GOk (sh : Shared) : Prop where
   log : ∀ c, c ∈ sh.mlog → isReturnCode c → sh.quiesced = true
-  cq : sh.complete = true → sh.quiesced = true
+  cq : 0 < sh.complete → sh.quiesced = true
   qs : sh.quiesced = true → sh.shutdown = true
+  se : sh.shutdown = true → 0 < sh.epoch
 
 /-- the step does not touch the flags and the log -/
 structure FlagsSame (sh sh' : Shared) : Prop where
@@ -29,34 +38,35 @@ structure FlagsSame (sh sh' : Shared) : Prop where
   quiesced : sh'.quiesced = sh.quiesced
   complete : sh'.complete = sh.complete
   mlog : sh'.mlog = sh.mlog
+  epoch : sh'.epoch = sh.epoch
 
 theorem FlagsSame.trans {a b c : Shared} (h1 : FlagsSame a b) (h2 : FlagsSame b c) : FlagsSame a c :=
-  ⟨h2.shutdown.trans h1.shutdown, h2.quiesced.trans h1.quiesced, h2.complete.trans h1.complete, h2.mlog.trans h1.mlog⟩
+  ⟨h2.shutdown.trans h1.shutdown, h2.quiesced.trans h1.quiesced, h2.complete.trans h1.complete, h2.mlog.trans h1.mlog, h2.epoch.trans h1.epoch⟩
 
 theorem callStep_flags (cfg : Cfg) (sh : Shared) (n t : Nat) (c : CallSt) : FlagsSame sh (callStep cfg sh n t c).1 := by
   cases c with
   | yield_ sc =>
     cases sc with
-    | nil => exact ⟨rfl, rfl, rfl, rfl⟩
-    | cons a rest => simp only [callStep]; split <;> exact ⟨rfl, rfl, rfl, rfl⟩
+    | nil => exact ⟨rfl, rfl, rfl, rfl, rfl⟩
+    | cons a rest => simp only [callStep]; split <;> exact ⟨rfl, rfl, rfl, rfl, rfl⟩
   | inCall rest cid e =>
-    cases e <;> simp only [callStep] <;> (repeat' split) <;> exact ⟨rfl, rfl, rfl, rfl⟩
+    cases e <;> simp only [callStep] <;> (repeat' split) <;> exact ⟨rfl, rfl, rfl, rfl, rfl⟩
 
 theorem bodyEnd_flags (cfg : Cfg) (sh : Shared) (id : Nat) : FlagsSame sh (bodyEnd cfg sh id).1 := by
-  unfold bodyEnd; split <;> exact ⟨rfl, rfl, rfl, rfl⟩
+  unfold bodyEnd; split <;> exact ⟨rfl, rfl, rfl, rfl, rfl⟩
 
 theorem afterWait_flags (cfg : Cfg) (sh : Shared) (t : Tid) (res : Bool) : FlagsSame sh (afterWait cfg sh t res).1 := by
-  unfold afterWait; (repeat' split) <;> exact ⟨rfl, rfl, rfl, rfl⟩
+  unfold afterWait; (repeat' split) <;> exact ⟨rfl, rfl, rfl, rfl, rfl⟩
 
 theorem reacq_flags (cfg : Cfg) (sh : Shared) (t : Tid) (late : Bool) : FlagsSame sh (reacq cfg sh t late).1 := by
   unfold reacq
   split
   · have := afterWait_flags cfg { sh with owner := some t, waiting := sh.waiting - 1 } t (waitPred sh)
-    exact ⟨this.shutdown, this.quiesced, this.complete, this.mlog⟩
+    exact ⟨this.shutdown, this.quiesced, this.complete, this.mlog, this.epoch⟩
   · split
     · have := afterWait_flags cfg { sh with owner := some t, waiting := sh.waiting - 1 } t true
-      exact ⟨this.shutdown, this.quiesced, this.complete, this.mlog⟩
-    · exact ⟨rfl, rfl, rfl, rfl⟩
+      exact ⟨this.shutdown, this.quiesced, this.complete, this.mlog, this.epoch⟩
+    · exact ⟨rfl, rfl, rfl, rfl, rfl⟩
 
 theorem transW_flags (cfg : Cfg) (sh : Shared) (n t : Nat) (w : WSt) : FlagsSame sh (transW cfg sh n t w).1 := by
   cases w with
@@ -69,15 +79,15 @@ theorem transW_flags (cfg : Cfg) (sh : Shared) (n t : Nat) (w : WSt) : FlagsSame
   | lock =>
     simp only [transW]; split
     · have := afterWait_flags cfg { sh with owner := some t } t true
-      exact ⟨this.shutdown, this.quiesced, this.complete, this.mlog⟩
-    · exact ⟨rfl, rfl, rfl, rfl⟩
-  | unlockTask id => simp only [transW, beginTask]; split <;> exact ⟨rfl, rfl, rfl, rfl⟩
+      exact ⟨this.shutdown, this.quiesced, this.complete, this.mlog, this.epoch⟩
+    · exact ⟨rfl, rfl, rfl, rfl, rfl⟩
+  | unlockTask id => simp only [transW, beginTask]; split <;> exact ⟨rfl, rfl, rfl, rfl, rfl⟩
   | bYield id sc =>
     simp only [transW]; split
     · exact bodyEnd_flags cfg sh id
-    · exact ⟨rfl, rfl, rfl, rfl⟩
-  | cfgUnlock id again => simp only [transW, taskDone]; split <;> exact ⟨rfl, rfl, rfl, rfl⟩
-  | _ => simp only [transW, beginTask, taskDone] <;> exact ⟨rfl, rfl, rfl, rfl⟩
+    · exact ⟨rfl, rfl, rfl, rfl, rfl⟩
+  | cfgUnlock id again => simp only [transW, taskDone]; split <;> exact ⟨rfl, rfl, rfl, rfl, rfl⟩
+  | _ => simp only [transW, beginTask, taskDone] <;> exact ⟨rfl, rfl, rfl, rfl, rfl⟩
 
 theorem transS_flags (cfg : Cfg) (sh : Shared) (n t : Nat) (x : SSt) : FlagsSame sh (transS cfg sh n t x).1 := by
   cases x with
@@ -85,8 +95,8 @@ theorem transS_flags (cfg : Cfg) (sh : Shared) (n t : Nat) (x : SSt) : FlagsSame
     simp only [transS]
     have h := callStep_flags cfg sh n t c
     cases hx : (callStep cfg sh n t c).2.1 <;> exact h
-  | start sc => simp only [transS]; split <;> exact ⟨rfl, rfl, rfl, rfl⟩
-  | done => exact ⟨rfl, rfl, rfl, rfl⟩
+  | start sc => simp only [transS]; split <;> exact ⟨rfl, rfl, rfl, rfl, rfl⟩
+  | done => exact ⟨rfl, rfl, rfl, rfl, rfl⟩
 
 theorem trans_flags_nonmain (cfg : Cfg) (sh : Shared) (n t : Nat) (th : Thread) (alt : Nat) (h : isMain th = false) :
     FlagsSame sh (trans cfg sh n t th alt).1 := by
@@ -96,10 +106,12 @@ theorem trans_flags_nonmain (cfg : Cfg) (sh : Shared) (n t : Nat) (th : Thread) 
   | worker x => exact transW_flags cfg sh n t x
 
 theorem cok_of_flags {sh sh' : Shared} {pc : MPc} (h : COk sh pc) (hf : FlagsSame sh sh') : COk sh' pc :=
-  ⟨by rw [hf.shutdown]; exact h.own, by rw [hf.quiesced]; exact h.q, by rw [hf.shutdown, hf.quiesced]; exact h.ctor⟩
+  ⟨by rw [hf.shutdown]; exact h.own, by rw [hf.quiesced]; exact h.q, by rw [hf.shutdown, hf.quiesced]; exact h.ctor,
+   fun e he => ⟨(h.ep e he).1, by rw [hf.shutdown]; exact (h.ep e he).2⟩⟩
 
 theorem gok_of_flags {sh sh' : Shared} (h : GOk sh) (hf : FlagsSame sh sh') : GOk sh' :=
-  ⟨by rw [hf.mlog, hf.quiesced]; exact h.log, by rw [hf.complete, hf.quiesced]; exact h.cq, by rw [hf.quiesced, hf.shutdown]; exact h.qs⟩
+  ⟨by rw [hf.mlog, hf.quiesced]; exact h.log, by rw [hf.complete, hf.quiesced]; exact h.cq, by rw [hf.quiesced, hf.shutdown]; exact h.qs,
+   by rw [hf.shutdown, hf.epoch]; exact h.se⟩
 
 /-- what one step of a controller does to the flags, the log and its own class -/
 structure CStep (sh sh' : Shared) (pc pc' : MPc) : Prop where
@@ -116,9 +128,10 @@ structure CStep (sh sh' : Shared) (pc pc' : MPc) : Prop where
 /-- a controller step that does not touch flags or log and moves monotonically between the classes of pcs -/
 theorem cstep_move {sh sh' : Shared} {pc pc' : MPc} (h : COk sh pc) (g : GOk sh) (hf : FlagsSame sh sh')
     (h1 : ownsPc pc' = true → ownsPc pc = true) (h2 : qPc pc' = true → qPc pc = true)
-    (h4 : ctorPc pc' = true → ctorPc pc = true) : CStep sh sh' pc pc' :=
+    (h4 : ctorPc pc' = true → ctorPc pc = true)
+    (h5 : ∀ e, pollEp pc' = some e → pollEp pc = some e := by simp [pollEp]) : CStep sh sh' pc pc' :=
   ⟨⟨by rw [hf.shutdown]; intro e; exact h.own (h1 e), by rw [hf.quiesced]; intro e; exact h.q (h2 e),
-     by rw [hf.shutdown, hf.quiesced]; intro e; exact h.ctor (h4 e)⟩,
+     by rw [hf.shutdown, hf.quiesced]; intro e; exact h.ctor (h4 e), fun e he => ⟨(h.ep e (h5 e he)).1, by rw [hf.shutdown]; exact (h.ep e (h5 e he)).2⟩⟩,
    gok_of_flags g hf, fun e => Or.inl (h1 e), by rw [hf.shutdown]; exact id, by rw [hf.quiesced]; exact id, h4,
    fun _ => ⟨hf.shutdown, hf.quiesced⟩⟩
 
@@ -133,18 +146,20 @@ theorem log_cons_other {sh : Shared} (g : GOk sh) (x : Nat) (hx : ¬ isReturnCod
 
 /-- a step to a plain pc (outside owner / q / ctor classes) that may append non-return codes or, with `quiesced`, return codes -/
 theorem cstep_plain {sh sh' : Shared} {pc pc' : MPc} (g : GOk sh)
-    (e1 : sh'.shutdown = sh.shutdown) (e2 : sh'.quiesced = sh.quiesced) (e3 : sh'.complete = true → sh.quiesced = true)
+    (e1 : sh'.shutdown = sh.shutdown) (e2 : sh'.quiesced = sh.quiesced) (e3 : 0 < sh'.complete → sh.quiesced = true)
     (hl : ∀ c, c ∈ sh'.mlog → isReturnCode c → sh.quiesced = true)
-    (h1 : ownsPc pc' = false) (h2 : qPc pc' = false) (h3 : ctorPc pc' = false) (hnc : ctorPc pc = false) : CStep sh sh' pc pc' := by
+    (h1 : ownsPc pc' = false) (h2 : qPc pc' = false) (h3 : ctorPc pc' = false) (hnc : ctorPc pc = false)
+    (h5 : pollEp pc' = none := by simp [pollEp]) (e4 : sh'.epoch = sh.epoch := by rfl) : CStep sh sh' pc pc' := by
   have f1 : ownsPc pc' = true → False := by rw [h1]; intro e; cases e
   have f2 : qPc pc' = true → False := by rw [h2]; intro e; cases e
   have f3 : ctorPc pc' = true → False := by rw [h3]; intro e; cases e
   have f4 : ctorPc pc = true → False := by rw [hnc]; intro e; cases e
-  refine ⟨⟨fun e => (f1 e).elim, fun e => (f2 e).elim, fun e => (f3 e).elim⟩, ⟨?_, ?_, ?_⟩,
+  refine ⟨⟨fun e => (f1 e).elim, fun e => (f2 e).elim, fun e => (f3 e).elim, fun e he => by rw [h5] at he; cases he⟩, ⟨?_, ?_, ?_, ?_⟩,
     fun e => (f1 e).elim, ?_, ?_, fun e => (f3 e).elim, fun e => (f4 e).elim⟩
   · rw [e2]; exact hl
   · rw [e2]; exact e3
   · rw [e1, e2]; exact g.qs
+  · rw [e1, e4]; exact g.se
   · rw [e1]; exact id
   · rw [e2]; exact id
 
@@ -158,11 +173,12 @@ theorem cstep_dtorReturn {sh : Shared} {pc : MPc} (r : MRegs) (g : GOk sh) (hq :
   unfold dtorReturn
   exact cstep_plain g rfl rfl g.cq (fun _ _ _ => hq) (by simp [ownsPc, seqPc, qPc]) (by simp [qPc]) (by simp [ctorPc]) hnc
 
-theorem cstep_dtorEarly {sh : Shared} {pc : MPc} (r : MRegs) (g : GOk sh) (hnc : ctorPc pc = false) :
+theorem cstep_dtorEarly {sh : Shared} {pc : MPc} (r : MRegs) (g : GOk sh) (hnc : ctorPc pc = false)
+    (hq : sh.epoch ≤ sh.complete → sh.quiesced = true) :
     CStep sh (dtorEarly sh r).1 pc (dtorEarly sh r).2.1 := by
   unfold dtorEarly
   split
-  · next hc => exact cstep_dtorReturn r g (g.cq hc) hnc
+  · next hc => exact cstep_dtorReturn r g (hq hc) hnc
   · exact cstep_plain g rfl rfl g.cq (log_cons_other g 13 (by simp [isReturnCode])) (by simp [ownsPc, seqPc, qPc]) (by simp [qPc]) (by simp [ctorPc]) hnc
 
 theorem cstep_drainReturn {sh : Shared} {pc : MPc} (r : MRegs) (b : Bool) (g : GOk sh) (hnc : ctorPc pc = false) :
@@ -187,14 +203,14 @@ theorem cstep_pollExit {sh : Shared} {pc : MPc} (r : MRegs) (k : Poll) (d : Bool
     · exact cstep_plain g rfl rfl g.cq g.log (by simp [ownsPc, seqPc, qPc]) (by simp [qPc]) (by simp [ctorPc]) hnc
   | shut =>
     have hs : ownsPc pc = true := by rcases hk with e | e; cases e; exact e
-    exact cstep_move h g ⟨rfl, rfl, rfl, rfl⟩ (fun _ => hs) (by simp [qPc]) (by simp [ctorPc])
+    exact cstep_move h g ⟨rfl, rfl, rfl, rfl, rfl⟩ (fun _ => hs) (by simp [qPc]) (by simp [ctorPc])
   | race =>
     have hs : ownsPc pc = true := by rcases hk with e | e; cases e; exact e
-    exact cstep_move h g ⟨rfl, rfl, rfl, rfl⟩ (fun _ => hs) (by simp [qPc]) (by simp [ctorPc])
+    exact cstep_move h g ⟨rfl, rfl, rfl, rfl, rfl⟩ (fun _ => hs) (by simp [qPc]) (by simp [ctorPc])
   | dtor =>
     have hs : ownsPc pc = true := by rcases hk with e | e; cases e; exact e
     simp only []
-    split <;> exact cstep_move h g ⟨rfl, rfl, rfl, rfl⟩ (fun _ => hs) (by simp [qPc]) (by simp [ctorPc])
+    split <;> exact cstep_move h g ⟨rfl, rfl, rfl, rfl, rfl⟩ (fun _ => hs) (by simp [qPc]) (by simp [ctorPc])
 
 theorem cstep_pollHead {sh : Shared} {pc : MPc} (r : MRegs) (k : Poll) (h : COk sh pc) (g : GOk sh) (hnc : ctorPc pc = false)
     (hk : k = .drain ∨ ownsPc pc = true) : CStep sh (pollHead sh r k).1 pc (pollHead sh r k).2.1 := by
@@ -202,28 +218,28 @@ theorem cstep_pollHead {sh : Shared} {pc : MPc} (r : MRegs) (k : Poll) (h : COk 
   split
   · rcases hk with e | hs
     · rw [e]; exact cstep_plain g rfl rfl g.cq g.log (by simp [ownsPc, seqPc, qPc]) (by simp [qPc]) (by simp [ctorPc]) hnc
-    · exact cstep_move h g ⟨rfl, rfl, rfl, rfl⟩ (fun _ => hs) (by simp [qPc]) (by simp [ctorPc])
+    · exact cstep_move h g ⟨rfl, rfl, rfl, rfl, rfl⟩ (fun _ => hs) (by simp [qPc]) (by simp [ctorPc])
   · exact cstep_pollExit r k false h g hnc hk
 
 theorem cstep_stepMYield (cfg : Cfg) {sh : Shared} (r : MRegs) (g : GOk sh) :
     CStep sh (stepMYield cfg sh r).1 .mYield (stepMYield cfg sh r).2.1 ∨ restartPc (stepMYield cfg sh r).2.1 = true := by
   have plain : ∀ (pc' : MPc) (sh' : Shared), sh'.shutdown = sh.shutdown → sh'.quiesced = sh.quiesced → sh'.complete = sh.complete →
       (∀ c, c ∈ sh'.mlog → isReturnCode c → sh.quiesced = true) →
-      ownsPc pc' = false → qPc pc' = false → ctorPc pc' = false → CStep sh sh' .mYield pc' := by
-    intro pc' sh' e1 e2 e3 hl h1 h2 h3
-    exact cstep_plain g e1 e2 (by rw [e3]; exact g.cq) hl h1 h2 h3 (by simp [ctorPc])
+      ownsPc pc' = false → qPc pc' = false → ctorPc pc' = false → pollEp pc' = none → sh'.epoch = sh.epoch → CStep sh sh' .mYield pc' := by
+    intro pc' sh' e1 e2 e3 hl h1 h2 h3 h5 e4
+    exact cstep_plain g e1 e2 (by rw [e3]; exact g.cq) hl h1 h2 h3 (by simp [ctorPc]) h5 e4
   unfold stepMYield drainEnter
   (repeat' split) <;> first
     | (right; rfl)
-    | (left; exact plain _ _ rfl rfl rfl g.log (by simp [ownsPc, seqPc, qPc]) (by simp [qPc]) (by simp [ctorPc]))
-    | (left; exact plain _ _ rfl rfl rfl (log_cons_other g 3 (by simp [isReturnCode])) (by simp [ownsPc, seqPc, qPc]) (by simp [qPc]) (by simp [ctorPc]))
-    | (left; exact plain _ _ rfl rfl rfl (log_cons_other g 6 (by simp [isReturnCode])) (by simp [ownsPc, seqPc, qPc]) (by simp [qPc]) (by simp [ctorPc]))
-    | (left; exact plain _ _ rfl rfl rfl (log_cons_other g 11 (by simp [isReturnCode])) (by simp [ownsPc, seqPc, qPc]) (by simp [qPc]) (by simp [ctorPc]))
+    | (left; exact plain _ _ rfl rfl rfl g.log (by simp [ownsPc, seqPc, qPc]) (by simp [qPc]) (by simp [ctorPc]) (by simp [pollEp]) rfl)
+    | (left; exact plain _ _ rfl rfl rfl (log_cons_other g 3 (by simp [isReturnCode])) (by simp [ownsPc, seqPc, qPc]) (by simp [qPc]) (by simp [ctorPc]) (by simp [pollEp]) rfl)
+    | (left; exact plain _ _ rfl rfl rfl (log_cons_other g 6 (by simp [isReturnCode])) (by simp [ownsPc, seqPc, qPc]) (by simp [qPc]) (by simp [ctorPc]) (by simp [pollEp]) rfl)
+    | (left; exact plain _ _ rfl rfl rfl (log_cons_other g 11 (by simp [isReturnCode])) (by simp [ownsPc, seqPc, qPc]) (by simp [qPc]) (by simp [ctorPc]) (by simp [pollEp]) rfl)
 
 theorem transM_cstep (cfg : Cfg) (sh : Shared) (n t : Nat) (pc : MPc) (r : MRegs) (alt : Nat) (h : COk sh pc) (g : GOk sh)
     (hnr : restartPc pc = false) (hnr' : restartPc (transM cfg sh n t pc r alt).2.1.1 = false) :
     CStep sh (transM cfg sh n t pc r alt).1 pc (transM cfg sh n t pc r alt).2.1.1 := by
-  have own : ∀ (o : Option Tid), FlagsSame sh { sh with owner := o } := fun _ => ⟨rfl, rfl, rfl, rfl⟩
+  have own : ∀ (o : Option Tid), FlagsSame sh { sh with owner := o } := fun _ => ⟨rfl, rfl, rfl, rfl, rfl⟩
   have gown : ∀ (o : Option Tid), GOk { sh with owner := o } := fun o => gok_of_flags g (own o)
   have hown : ∀ (o : Option Tid), COk { sh with owner := o } pc := fun o => cok_of_flags h (own o)
   have lift : ∀ (o : Option Tid) {pc' : MPc} {sh' : Shared}, CStep { sh with owner := o } sh' pc pc' → CStep sh sh' pc pc' :=
@@ -257,27 +273,31 @@ theorem transM_cstep (cfg : Cfg) (sh : Shared) (n t : Nat) (pc : MPc) (r : MRegs
   | sFlagL =>
     simp only [transM]
     split
-    · exact cstep_move h g (own (some t)) (by simp [ownsPc, seqPc, qPc]) (by simp [qPc]) (by simp [ctorPc])
+    · next hs =>
+      have hs' : sh.shutdown = true := by simpa using hs
+      exact ⟨⟨by simp [ownsPc, seqPc, qPc], by simp [qPc], by simp [ctorPc], fun e he => by simp [pollEp] at he; rw [← he]; exact ⟨g.se hs', hs'⟩⟩,
+        gown (some t), by simp [ownsPc, seqPc, qPc], id, id, by simp [ctorPc], by simp [ctorPc]⟩
     · next hs =>
       have hs' : sh.shutdown = false := by simpa using hs
-      refine ⟨⟨fun _ => rfl, by simp [qPc], by simp [ctorPc]⟩, ⟨g.log, g.cq, fun _ => rfl⟩, fun _ => Or.inr hs', fun _ => rfl, id,
+      refine ⟨⟨fun _ => rfl, by simp [qPc], by simp [ctorPc], by simp [pollEp]⟩, ⟨g.log, g.cq, fun _ => rfl, fun _ => Nat.succ_pos _⟩, fun _ => Or.inr hs', fun _ => rfl, id,
         by simp [ctorPc], by simp [ctorPc]⟩
-  | sFlagUA =>
+  | sFlagUA ep =>
     simp only [transM]
     split
-    · exact lift none (cstep_dtorEarly r (gown none) (by simp [ctorPc]))
+    · exact lift none (cstep_dtorEarly r (gown none) (by simp [ctorPc])
+        (fun hc => g.cq (Nat.lt_of_lt_of_le (g.se (h.ep ep rfl).2) hc)))
     · split
-      · next hc => exact lift none (cstep_shutdownReturn r (gown none) (g.cq hc) (by simp [ctorPc]))
+      · next hc => exact lift none (cstep_shutdownReturn r (gown none) (g.cq (Nat.lt_of_lt_of_le (h.ep ep rfl).1 hc)) (by simp [ctorPc]))
       · exact cstep_move h g (own none) (by simp [ownsPc, seqPc, qPc]) (by simp [qPc]) (by simp [ctorPc])
-  | sDoneZ =>
+  | sDoneZ ep =>
     simp only [transM]
     split
-    · next hc => exact cstep_shutdownReturn r g (g.cq hc) (by simp [ctorPc])
-    · exact cstep_move h g ⟨rfl, rfl, rfl, rfl⟩ (by simp [ownsPc, seqPc, qPc]) (by simp [qPc]) (by simp [ctorPc])
+    · next hc => exact cstep_shutdownReturn r g (g.cq (Nat.lt_of_lt_of_le (h.ep ep rfl).1 hc)) (by simp [ctorPc])
+    · exact cstep_move h g ⟨rfl, rfl, rfl, rfl, rfl⟩ (by simp [ownsPc, seqPc, qPc]) (by simp [qPc]) (by simp [ctorPc])
   | sBcast =>
     simp only [transM]
     split
-    · exact cstep_move h g ⟨rfl, rfl, rfl, rfl⟩ (by simp [ownsPc, seqPc, qPc]) (by simp [qPc]) (by simp [ctorPc])
+    · exact cstep_move h g ⟨rfl, rfl, rfl, rfl, rfl⟩ (by simp [ownsPc, seqPc, qPc]) (by simp [qPc]) (by simp [ctorPc])
     · exact cstep_pollHead _ .shut h g (by simp [ctorPc]) (Or.inr (by simp [ownsPc, seqPc]))
   | sChkU =>
     simp only [transM]
@@ -288,23 +308,25 @@ theorem transM_cstep (cfg : Cfg) (sh : Shared) (n t : Nat) (pc : MPc) (r : MRegs
     simp only [transM]
     have hs := h.own (by simp [ownsPc, seqPc])
     split
-    · exact ⟨⟨fun _ => hs, fun _ => rfl, by simp [ctorPc]⟩, ⟨fun _ _ _ => rfl, fun _ => rfl, fun _ => hs⟩, fun _ => Or.inl (by simp [ownsPc, seqPc]),
+    · exact ⟨⟨fun _ => hs, fun _ => rfl, by simp [ctorPc], by simp [pollEp]⟩, ⟨fun _ _ _ => rfl, fun _ => rfl, fun _ => hs, g.se⟩, fun _ => Or.inl (by simp [ownsPc, seqPc]),
         id, fun _ => rfl, by simp [ctorPc], by simp [ctorPc]⟩
     · split
-      · exact cstep_move h g ⟨rfl, rfl, rfl, rfl⟩ (by simp [ownsPc, seqPc, qPc]) (by simp [qPc]) (by simp [ctorPc])
-      · exact cstep_move h g ⟨rfl, rfl, rfl, rfl⟩ id id id
+      · exact cstep_move h g ⟨rfl, rfl, rfl, rfl, rfl⟩ (by simp [ownsPc, seqPc, qPc]) (by simp [qPc]) (by simp [ctorPc])
+      · exact cstep_move h g ⟨rfl, rfl, rfl, rfl, rfl⟩ id id id
   | jUnone =>
     simp only [transM]
     have hq := h.q (by simp [qPc])
     split
     · exact cstep_move h g (own none) (by simp [ownsPc, seqPc, qPc]) (by simp [qPc]) (by simp [ctorPc])
-    · exact lift none (cstep_shutdownReturn r (gown none) hq (by simp [ctorPc]))
+    · have g' : GOk { sh with owner := none, complete := r.ep } := ⟨g.log, fun _ => hq, g.qs, g.se⟩
+      have c := cstep_shutdownReturn (pc := MPc.jUnone) r g' hq (by simp [ctorPc])
+      exact ⟨c.cok, c.gok, c.own, c.monoS, c.monoQ, c.ctor, c.ctorF⟩
   | p2Z =>
     simp only [transM]
     split
-    · exact cstep_move h g ⟨rfl, rfl, rfl, rfl⟩ (by simp [ownsPc, seqPc, qPc]) (by simp [qPc]) (by simp [ctorPc])
+    · exact cstep_move h g ⟨rfl, rfl, rfl, rfl, rfl⟩ (by simp [ownsPc, seqPc, qPc]) (by simp [qPc]) (by simp [ctorPc])
     · split
-      · exact cstep_move h g ⟨rfl, rfl, rfl, rfl⟩ (by simp [ownsPc, seqPc, qPc]) (by simp [qPc]) (by simp [ctorPc])
+      · exact cstep_move h g ⟨rfl, rfl, rfl, rfl, rfl⟩ (by simp [ownsPc, seqPc, qPc]) (by simp [qPc]) (by simp [ctorPc])
       · exact cstep_pollHead _ .dtor h g (by simp [ctorPc]) (Or.inr (by simp [ownsPc, seqPc]))
   | p2Grace => simp only [transM]; exact cstep_pollHead _ .dtor h g (by simp [ctorPc]) (Or.inr (by simp [ownsPc, seqPc]))
   | p5U => simp only [transM]; exact lift none (cstep_dtorReturn r (gown none) (h.q (by simp [qPc])) (by simp [ctorPc]))
@@ -316,7 +338,7 @@ theorem transM_cstep (cfg : Cfg) (sh : Shared) (n t : Nat) (pc : MPc) (r : MRegs
     exact cstep_move h g (own (some t)) (by cases k <;> simp [ownsPc, seqPc, qPc]) (by simp [qPc]) (by simp [ctorPc])
   | start =>
     simp only [transM]
-    split <;> exact cstep_move h g ⟨rfl, rfl, rfl, rfl⟩ (by simp [ownsPc, seqPc, qPc]) (by simp [qPc]) (by simp [ctorPc])
+    split <;> exact cstep_move h g ⟨rfl, rfl, rfl, rfl, rfl⟩ (by simp [ownsPc, seqPc, qPc]) (by simp [qPc]) (by simp [ctorPc])
   | rsL => simp [restartPc] at hnr
   | rsU => simp [restartPc] at hnr
   | stL => simp [restartPc] at hnr
@@ -326,7 +348,7 @@ theorem transM_cstep (cfg : Cfg) (sh : Shared) (n t : Nat) (pc : MPc) (r : MRegs
   | kU => simp [restartPc] at hnr
   | _ =>
     simp only [transM] <;> (repeat' split) <;>
-    exact cstep_move h g ⟨rfl, rfl, rfl, rfl⟩ (by simp [ownsPc, seqPc, qPc]) (by simp [qPc]) (by simp [ctorPc])
+    exact cstep_move h g ⟨rfl, rfl, rfl, rfl, rfl⟩ (by simp [ownsPc, seqPc, qPc]) (by simp [qPc]) (by simp [ctorPc])
 
 theorem trans_isMain (cfg : Cfg) (sh : Shared) (n t : Nat) (th : Thread) (alt : Nat) :
     isMain (trans cfg sh n t th alt).2.1 = isMain th := by
@@ -355,13 +377,13 @@ theorem transM_noDetach (cfg : Cfg) (hdet : cfg.detached = false) (sh : Shared) 
     cases k <;> simp only [transM]
     · exact calm_not_detach _ w (drainReturn_calm { sh with owner := none } r false)
     all_goals simp
-  | sFlagUA =>
+  | sFlagUA ep =>
     simp only [transM]; split
     · exact calm_not_detach _ w (dtorEarly_calm { sh with owner := none } r)
     · split
       · exact calm_not_detach _ w (shutdownReturn_calm { sh with owner := none } r)
       · simp
-  | sDoneZ =>
+  | sDoneZ ep =>
     simp only [transM]; split
     · exact calm_not_detach _ w (shutdownReturn_calm sh r)
     · simp
@@ -376,7 +398,7 @@ theorem transM_noDetach (cfg : Cfg) (hdet : cfg.detached = false) (sh : Shared) 
   | jUnone =>
     simp only [transM]; split
     · simp
-    · exact calm_not_detach _ w (shutdownReturn_calm { sh with owner := none } r)
+    · exact calm_not_detach _ w (shutdownReturn_calm _ r)
   | p2Z =>
     simp only [transM]; split
     · simp
